@@ -174,6 +174,8 @@ UpdateOut(a, d, n) ==
       [] a.cb = "set"    -> wc(a.body, TRUE, a.exp)
       [] a.cb = "del"    -> IF HasBody(d) THEN wc(NoBody, FALSE, a.exp) ELSE Wild(d)
       [] a.cb = "setexp" -> IF HasBody(d) THEN wc(d.body, TRUE, "E2") ELSE Wild(d)
+      [] a.cb = "inc"    -> IF HasBody(d) /\ d.body.k = "num" THEN wc(NumBody(d.body.n + 1), TRUE, a.exp)
+                            ELSE IF ~HasBody(d) THEN wc(NumBody(1), TRUE, a.exp) ELSE Wild(d)
       [] OTHER -> Wild(d)
 
 ---------------------------------------------------------------------------
@@ -250,7 +252,10 @@ DeleteWithXattrsOut(a, d, n) ==
 (* WriteUpdateWithXattrs(callback) run sequentially = the callback applied *)
 (* to the current version, then the conditional write it implies.          *)
 WriteUpdateWithXattrsOut(a, d, n) ==
-    LET a2 == [a EXCEPT !.cas = d.cas] IN
+    LET a1 == IF a.cb = "inc"
+              THEN [a EXCEPT !.body = NumBody(IF HasBody(d) /\ d.body.k = "num" THEN d.body.n + 1 ELSE 1), !.hasbody = TRUE]
+              ELSE a
+        a2 == [a1 EXCEPT !.cas = d.cas] IN
     IF a.cb = "cancel" THEN Unch(d, {"other"})
     ELSE IF a.db THEN WriteTombstoneWithXattrsOut([a2 EXCEPT !.db = HasBody(d)], d, n)
     ELSE IF IsTomb(d) THEN
